@@ -59,11 +59,13 @@ static vf_errlog elog;
 
 /* scenario: recipe on the shape; 1x1 gets a fourth reflect so that the
    system is over-determined */
+static int g_net = 2;	/* error-network family member used by scenarios */
+
 static int make_scenario(cs_scenario *sc, vnacal_type_t type, int rows,
 	int cols, int recipe, int nf)
 {
     memset(sc, 0, sizeof(*sc));
-    cs_make_vna(&sc->vna, type, rows, cols, nf, 2);
+    cs_make_vna(&sc->vna, type, rows, cols, nf, g_net);
     if (cs_recipe(sc, recipe, 0, 0, 0, 0) != 0)
 	return -1;
     if (sc->vna.P == 1 && !is16(type)) {
@@ -326,13 +328,18 @@ static void run_ens(int tier, int t, vf_result *r)
     const int nreal = tier ? 128 : 64;
     long trials = 0, rejected = 0, other = 0;
     long out_trials = 0, out_rejected = 0;
+    int worst_group_pct = 0;
     char sig[160];
 
-    vf_desc(r, "ensemble %s: %d fixed Gaussian realisations x 12 scenarios, "
+    vf_desc(r, "ensemble %s: %d fixed Gaussian realisations x 36 scenarios, "
 	    "significance 0.05", tname, nreal);
     unsigned long mark = vf_exec_begin();
-    for (int d = 0; d < 2; ++d) {
+    for (int dn = 0; dn < 4; ++dn) {
+	int d = dn & 1;
 	int rows = dimlist[d][0], cols = dimlist[d][1];
+	/* second half: an almost ideal instrument, where a match reads
+	   nearly zero and the weights spread over orders of magnitude */
+	g_net = dn < 2 ? 2 : 3;
 	for (int recipe = 0; recipe < 2; ++recipe) {
 	    if (make_scenario(&sc, types[t], rows, cols, recipe, 1) != 0)
 		continue;
@@ -340,24 +347,46 @@ static void run_ens(int tier, int t, vf_result *r)
 	    if (!cs_identifiable(&sc, (1u << sc.nstd) - 1u, &margin, &eqs,
 			&unk) || margin < 1e-4L || eqs <= unk)
 		continue;
-	    for (int cfg = 0; cfg < 4; ++cfg) {
-		/* noise-floor dominated, mixed, tracking dominated, mixed2 */
-		static const double nfv[4] = { 1e-4, 1e-4, 1e-6, 1e-3 };
-		static const double trv[4] = { 0.0, 1e-3, 1e-3, 1e-3 };
+	    for (int cfg = 0; cfg < 6; ++cfg) {
+		/* noise-floor dominated, mixed, tracking dominated, mixed2,
+		   strongly tracking dominated (weights spread over orders of
+		   magnitude between strong and weak readings) */
+		static const double nfv[6] = { 1e-4, 1e-4, 1e-6, 1e-3, 1e-5,
+		    1e-6 };
+		static const double trv[6] = { 0.0, 1e-3, 1e-3, 1e-3, 5e-2,
+		    1e-1 };
+		long g_trials = 0, g_rejected = 0;
 		sc.sigma_nf = nfv[cfg];
 		sc.sigma_tr = trv[cfg];
 		for (int k = 1; k <= nreal; ++k) {
 		    sc.gauss_real = k + 1000 * cfg + 10000 * recipe +
-			100000 * d;
+			100000 * dn;
 		    run_cal(&sc, true, 0, nfv[cfg], trv[cfg], false, 0.05,
 			    &o, r);
 		    ++trials;
-		    if (o.rc == -1 && o.err_no == EDOM)
+		    ++g_trials;
+		    if (o.rc == -1 && o.err_no == EDOM) {
 			++rejected;
-		    else if (o.rc != 0)
+			++g_rejected;
+		    } else if (o.rc != 0)
 			++other;
 		}
 		sc.gauss_real = 0;
+		vf_note("  group dims %dx%d recipe %d net %d nf %g tr %g: "
+			"rejected %ld of %ld", rows, cols, recipe, g_net,
+			nfv[cfg], trv[cfg], g_rejected, g_trials);
+		if (g_trials >= 64 && 5 * g_rejected > 2 * g_trials) {
+		    snprintf(sig, sizeof(sig), "rejection-rate-group:%s",
+			    tname);
+		    vf_fail(r, sig, "%dx%d recipe %d (network %d, sigma_nf "
+			    "%g, sigma_tr %g): data with noise of exactly "
+			    "the declared size rejected in %ld of %ld "
+			    "trials at significance 0.05 (per-scenario "
+			    "ceiling 40 %%)", rows, cols, recipe, g_net,
+			    nfv[cfg], trv[cfg], g_rejected, g_trials);
+		}
+		if (g_rejected > worst_group_pct * g_trials / 100)
+		    worst_group_pct = (int)(100 * g_rejected / g_trials);
 		if (trv[cfg] <= 1e-3) {
 		    for (int k = 0; k < sc.nstd; ++k) {
 			sc.displace_id = sc.std[k].id;
@@ -381,6 +410,7 @@ static void run_ens(int tier, int t, vf_result *r)
     }
     vf_note("outliers rejected %ld of %ld; noise rejected %ld of %ld",
 	    out_rejected, out_trials, rejected, trials);
+    g_net = 2;
     r->states = trials;
     if (other > 0) {
 	snprintf(sig, sizeof(sig), "ensemble-error:%s", tname);
@@ -396,6 +426,7 @@ static void run_ens(int tier, int t, vf_result *r)
 		100.0 * rate);
     }
     r->nontrivial = trials > 0;
+    vf_note("worst scenario rate %d %%", worst_group_pct);
     vf_outcome(r, "ensemble %s rate %s outliers %ld/%ld", tname,
 	    rate < 0.005 ? "<0.5%" : rate < 0.02 ? "0.5-2%" :
 	    rate < 0.1 ? "2-10%" : rate <= 0.25 ? "10-25%" : ">25%",
